@@ -60,8 +60,8 @@ let gtab_of_sx (x : sx) : n list gtab =
 
 let outlines_of_sx (x : sx) : outlines =
   match x with
-  | L [A "glyf"; A "nil"] -> OGlyf None
-  | L [A "glyf"; w] -> OGlyf (Some (List.map sx_z (lst w)))
+  | L [A "glyf"; n; A "nil"] -> OGlyf (sx_n n, None)
+  | L [A "glyf"; n; w] -> OGlyf (sx_n n, Some (List.map sx_z (lst w)))
   | L [A "cff"; w] -> OCff (List.map sx_z (lst w))
   | _ -> failwith "bad outlines"
 
